@@ -62,7 +62,7 @@ func causeClass(k string) string {
 	switch k {
 	case "clean-eof", "eof":
 		return "eof"
-	case "cancel-master", "cancel-handler", "cancel-idle", "cancel-blocked":
+	case "cancel-master", "cancel-handler", "cancel-idle", "cancel-blocked", "cancel-late-packet":
 		return "cancel"
 	case "err":
 		return "master-err"
